@@ -36,6 +36,13 @@ for p in props:
                    ("The directory-entry classification (checkUserFile) is TRANSLATED statement by statement from the "
                     "source on every run (lean/Whawty/Gen/CheckFile.lean) and proved equal to the model's "
                     "(Props/GenCheckFile.lean: checkUserFile_is_source). " if "Whawty.Props.GenCheckFile" in c["modules"] else "") +
+                   ("The four codec methods (Request / Response Encode / Decode) are TRANSLATED statement by statement from "
+                    "the source on every run (lean/Whawty/Gen/Codec.lean; the loops over the parts are parameters) and proved "
+                    "equal to the model's (Props/GenCodecFn.lean: requestEncode_is_source, requestDecode_is_source, "
+                    "responseEncode_is_source, responseDecode_is_source, source_*_model). " if "Whawty.Props.GenCodecFn" in c["modules"] else "") +
+                   ("The argon2id constructor (NewArgon2IDHasher) is TRANSLATED statement by statement from the source on "
+                    "every run (lean/Whawty/Gen/Argon.lean) and proved to accept exactly what the model's argonOk accepts "
+                    "(Props/GenArgon.lean: newArgon2IDHasher_is_source). " if "Whawty.Props.GenArgon" in c["modules"] else "") +
                    " ".join(c.get("trusted", [])) +
                    (" Decided by the run only (partial): " + "; ".join(c["partial"]) if c.get("partial") else ""),
         technique="Lean 4 theorems about a hand-written executable model + differential correspondence (model vs "
@@ -43,7 +50,11 @@ for p in props:
                   (" + constants and grammar regenerated from the source by a translator on every run"
                    if any(m.startswith("Whawty.Props.Gen") for m in c["modules"]) else "") +
                   (" + the codec's split function translated from the source on every run and proved equal to the model's"
-                   if "Whawty.Props.GenScan" in c["modules"] else ""),
+                   if "Whawty.Props.GenScan" in c["modules"] else "") +
+                  (" + the four codec methods translated from the source on every run and proved equal to the model's"
+                   if "Whawty.Props.GenCodecFn" in c["modules"] else "") +
+                  (" + the argon2id constructor translated from the source on every run and proved equal to the model's"
+                   if "Whawty.Props.GenArgon" in c["modules"] else ""),
     ))
 na = [dict(property_id=p["id"], reason=NOT_APPLICABLE.get(p["id"], "check not built yet in this commit (work in progress; see DESIGN.md section 10)"))
       for p in props if p["id"] not in PROPS]
